@@ -54,7 +54,25 @@ class TreeProbe:
         L = T.sym("Ltree", "int")
         sub_env = type(env)(env.module, dict(env.local), env.parent)
         sub_env.func = getattr(env, "func", None)
-        sub_env.local["stats"] = SList(L, lambda i: T.app("part", i))
+        mach = env.lookup("self")
+
+        def part(i):
+            """the statistics of partition i: an IVectorStats object every entry of which is the index-tagged scalar part[i]"""
+            st = Obj(I.classes["IVectorStats"])
+            Cn, Dn, Rn = mach.fields["dim_c"], mach.fields["dim_d"], mach.fields["dim_t"]
+            st.fields.update(dim_c=Cn, dim_d=Dn, dim_t=Rn,
+                             nij_sigma_wij2=Arr((Cn, Rn, Rn), lambda c, a, b: T.app("part", i)),
+                             fnorm_sigma_wij=Arr((Cn, Dn, Rn), lambda c, d, a: T.app("part", i)),
+                             snormij=Arr((Cn, Dn), lambda c, d: T.app("part", i)), nij=Arr((Cn,), lambda c: T.app("part", i)))
+            return st
+
+        def tagged(v):
+            """the index-tagged scalar content of a (computed) round element"""
+            v = I.dask_compute(v)
+            if isinstance(v, Obj) and isinstance(v.fields.get("nij"), Arr):
+                return P(v.fields["nij"].fn(T.fresh("c")))
+            return P(v)
+        sub_env.local["stats"] = SList(L, part)
         saved_path, saved_assumed = list(I.path), set(I.assumed)
         I.assumed.add(T.cmp_cond("<", ONE, L))
         rounds = []
@@ -80,9 +98,37 @@ class TreeProbe:
                 self.clauses.append(Clause("C12.iv.tree", "undecided", "", "round result is not a list"))
                 return
             i = T.fresh("i")
-            el = I.dask_compute(new.elem(i))
-            idxs = part_indices(P(el))
-            extra = [part_indices(P(I.dask_compute(x))) for x in getattr(new, "extra", [])]
+            # purity of the reduction tasks (Dask contract): an object handed to EVERY task of the round (the same Python object
+            # for two different indices) must not be modified by a task -- the tasks would communicate through it, and the
+            # result would depend on the order in which they run
+            d1 = new.elem(i)
+            iname = T.symname(i)
+
+            def depends(v, depth=0):
+                if isinstance(v, Arr):
+                    e = v.fn(*[T.fresh("q") for _ in v.shape])
+                    return isinstance(e, (Poly, T.Cond)) and iname in e.syms
+                if isinstance(v, (Poly, T.Cond)):
+                    return iname in v.syms
+                if isinstance(v, Obj) and depth < 3:
+                    return any(depends(x, depth + 1) for x in v.fields.values())
+                return False
+            # (the list is built from ONE generic element: an object argument that does not depend on the index is the same
+            # object for every task)
+            shared = [a for a in getattr(d1, "args", ()) if isinstance(a, Obj) and not depends(a)]
+            before = [{k: (id(v), getattr(v, "fn", None)) for k, v in a.fields.items()} for a in shared]
+            el = tagged(d1)
+            for a, b4 in zip(shared, before):
+                now = {k: (id(v), getattr(v, "fn", None)) for k, v in a.fields.items()}
+                changed = sorted(k for k in now if now[k] != b4.get(k))
+                if changed:
+                    self.clauses.append(Clause("C12.iv.tree", "refuted", "npsym",
+                                               "a task of the pairwise reduction modifies an object shared by all tasks of the round (%s.%s): the partial "
+                                               "sums are accumulated into one accumulator, so later nodes add it to itself and the result depends on the "
+                                               "number of partitions and on the execution order" % (a.cls.name, ", ".join(changed))))
+                    return
+            idxs = part_indices(el)
+            extra = [part_indices(tagged(x)) for x in getattr(new, "extra", [])]
             # translate index expressions to z3 (linear in i, L, floordiv(L,2))
             def tz(p):
                 tr = smt.Tr(smt.Facts())
